@@ -83,6 +83,10 @@ fn main() {
         .map(|d| d.filter_map(|e| e.ok().map(|e| e.path())).collect())
         .unwrap_or_default();
     files.sort();
+    // mutation analysis only (tools/mutant.sh): measure what the generated search alone finds
+    if std::env::var_os("VERIF_NO_REGRESS").is_some_and(|v| !v.is_empty()) {
+        files.clear();
+    }
     let mut regress_run = 0u64;
     for f in files.iter().filter(|f| f.extension().is_some_and(|e| e == "json")) {
         let rf = match engine::load_replay(f) {
